@@ -166,11 +166,10 @@ class eap(packet_base):
         self.payload_len = 0
         self.parsed = True
 
-        if self.code == self.REQUEST_CODE:
-            (self.type,) \
-                = struct.unpack('!B', raw[self.MIN_LEN:self.MIN_LEN + 1 ])
-            # not yet implemented
-        elif self.code == self.RESPONSE_CODE:
+        if self.code in (self.REQUEST_CODE, self.RESPONSE_CODE):
+            if dlen < self.MIN_LEN + 1:
+                self.msg('(eapol parse) warning EAP packet data too short to parse type: data len %u' % (dlen,))
+                return
             (self.type,) \
                 = struct.unpack('!B', raw[self.MIN_LEN:self.MIN_LEN + 1 ])
             # not yet implemented
